@@ -630,6 +630,13 @@ type exitInfo struct {
 // executing an instruction for which stop returns true. Deferred calls
 // matching stop that were registered on the way also block the path.
 func pathsAvoiding(fn *ssa.Function, start ssa.Instruction, stop func(ssa.Instruction) bool) []exitInfo {
+	return pathsAvoidingTo(fn, start, nil, stop, nil)
+}
+
+// pathsAvoidingTo is pathsAvoiding with two extensions: the walk may start at
+// the head of startBlock (when start is nil and startBlock is not), and
+// instructions satisfying sink are reported like exits (the path ends there).
+func pathsAvoidingTo(fn *ssa.Function, start ssa.Instruction, startBlock *ssa.BasicBlock, stop func(ssa.Instruction) bool, sink func(ssa.Instruction) bool) []exitInfo {
 	var exits []exitInfo
 	type edge struct{ from, to *ssa.BasicBlock }
 	visited := map[edge]bool{}
@@ -639,6 +646,10 @@ func pathsAvoiding(fn *ssa.Function, start ssa.Instruction, stop func(ssa.Instru
 		for i := from; i < len(b.Instrs); i++ {
 			in := b.Instrs[i]
 			if stop(in) {
+				return
+			}
+			if sink != nil && sink(in) {
+				exits = append(exits, exitInfo{Instr: in, Pred: pred, Trail: append([]int(nil), trail...)})
 				return
 			}
 			if d, ok := in.(*ssa.Defer); ok {
@@ -665,6 +676,8 @@ func pathsAvoiding(fn *ssa.Function, start ssa.Instruction, stop func(ssa.Instru
 	}
 	if start != nil {
 		walk(start.Block(), instrIndex(start)+1, nil, nil)
+	} else if startBlock != nil {
+		walk(startBlock, 0, nil, nil)
 	} else if len(fn.Blocks) > 0 {
 		walk(fn.Blocks[0], 0, nil, nil)
 	}
